@@ -175,6 +175,19 @@ fn check_case(case: &Case, ms: &[Malformation], sink: &Sink) {
             }
         }
     }
+    // Diff mode with a path argument that matches none of the files: every file is named by the
+    // all-lines-added diff, so the bad block is modified and in scope all the same.
+    if case.variant == 0 && (case.position == 3 || case.position == 1) {
+        let all_added = files.iter().map(|(n, t)| cli::new_file_diff(n, t)).collect::<String>();
+        sink.exec();
+        let outcome = librun::run(&Input { files: files.clone(), diff: Some(all_added), globs: vec!["nomatch/**".into()], map_order: Some(names.clone()), ..Default::default() });
+        sink.outcome(format!("{}:diff+other-glob:{}", m.kind.split(':').next().unwrap_or(""), outcome.class().split(':').take(2).collect::<Vec<_>>().join(":")));
+        match &outcome {
+            Outcome::Panic { message } => sink.fail(format!("C13:panic:{}:{}", m.kind, first_line(message)), format!("bad block `{}` in diff mode with a non-matching path argument: {message}", m.attrs), input.clone()),
+            _ if outcome.exit_status() == 0 => sink.fail(format!("C13:malformed-rule-passes:diff+other-glob:{}", m.kind), format!("bad block `{}` with content {:?}, every file named by the diff, path argument `nomatch/**`: the run succeeded (exit 0)", m.attrs, m.content), input.clone()),
+            _ => {}
+        }
+    }
     // Every schedule of the seams (order of validator bodies, delivery order of async results):
     // the failure must not depend on which validator finishes first.
     if case.position == 1 && case.variant == 0 {
@@ -231,7 +244,7 @@ pub fn run(cfg: &Cfg, sink: &Arc<Sink>) -> Report {
         std::env::remove_var("BLOCKWATCH_AI_API_KEY");
         std::env::set_var("BLOCKWATCH_AI_API_URL", "http://127.0.0.1:9/v1");
     }
-    let mut report = Report::new("cases = every malformation of every rule kind (unknown sort direction / format, non-numeric keys under numeric sort at every position, uncompilable regex in each regex-carrying attribute, bad line-count expressions incl. empty, overflow, negative, garbage, wrong operators, affects references without colon on a modified block, unknown severity on a violating block, check-lua with empty / missing / directory / empty-file / invalid-UTF-8 / validate-less script and bad pattern, check-ai with empty condition, bad pattern, missing key) × position of the bad block {alone, first, middle, last} × {same file as the healthy blocks, own file} × {as is; with satisfied rules of other kinds on the same block; nested inside a healthy block; in a Markdown file} × every block-map order, the middle position additionally under every schedule of the validator seams (library), and {alone, middle, own file last} through the real CLI; oracle: the run ends with an explanatory error or, at least, a non-zero status — never exit 0, never a panic; non-trivial = every case");
+    let mut report = Report::new("cases = every malformation of every rule kind (unknown sort direction / format, non-numeric keys under numeric sort at every position, uncompilable regex in each regex-carrying attribute, bad line-count expressions incl. empty, overflow, negative, garbage, wrong operators, affects references without colon on a modified block, unknown severity on a violating block, check-lua with empty / missing / directory / empty-file / invalid-UTF-8 / validate-less script and bad pattern, check-ai with empty condition, bad pattern, missing key) × position of the bad block {alone, first, middle, last} × {same file as the healthy blocks, own file} × {as is; with satisfied rules of other kinds on the same block; nested inside a healthy block; in a Markdown file} × every block-map order, alone and middle also in diff mode with a path argument matching no file, the middle position additionally under every schedule of the validator seams (library), and {alone, middle, own file last} through the real CLI; oracle: the run ends with an explanatory error or, at least, a non-zero status — never exit 0, never a panic; non-trivial = every case");
     report.assume("the property's qualifiers are honoured: regexes sit on blocks with content, unknown severities on blocks with a violation, colon-less references on modified blocks");
     let ms = Arc::new(malformations());
     let mut cases = Vec::new();
